@@ -21,6 +21,7 @@ META = {
         "'no downwind component' is asserted where cos(theta-theta_w) <= -1e-9 (the bins within rounding of exactly 90 degrees may go either way)",
         "linearity in E at fixed roughness: 1e-12 relative; bulk = sum(rate*df*dtheta) with independently computed steps: 1e-10 relative to sum|terms| (fastmath reduction)",
         "in half of the cases the source-term objects have been used before on a spectrum with another grid of the same shape (object reuse); every clause must hold regardless",
+        "a quarter of the cases store the densities (0..200) and U10 in int64 arrays (the single-point comparison uses the same storage type)",
         "batch independence: each point equals its single-point evaluation within 1e-13 of the field maximum (bit-for-bit equality of jitted kernels is not stable across machines)",
     ],
 }
@@ -59,6 +60,8 @@ def case(draw):
         "viscous": draw(st.sampled_from([0.0, 0.0, 0.1])),
         "dedt_fraction": draw(st.sampled_from([0.0, 0.2, -0.2])),
         "reuse_terms": draw(st.booleans()),
+        # densities (and U10) as stored in integer arrays: same values, another storage type
+        "integer_storage": draw(st.integers(0, 3)) == 0,
     })
     return c
 
@@ -89,20 +92,36 @@ def run(c):
     E = W.densities(c)                       # (n, nf, nd)
     n = E.shape[0]
     sc = c["scale"]
-    # batch: base points, then scaled copy of point 0, a partner for point 0, their sum, and an empty sea
-    E2 = np.roll(E[0], 3, axis=1)[::-1][::-1] * 0.5 + E[(1 % n)] * 0.25
-    floor = 1e-9 * E.max() if c["dissipation"] == "romero" else 0.0
+    ints = bool(c.get("integer_storage"))
+    if ints:
+        # integer-valued densities 0..200 (>= 1 for Romero); derived points use integer-preserving combinations
+        E = np.round(E / max(float(E.max()), 1e-300) * 200.0)
+        if c["dissipation"] == "romero":
+            E = np.maximum(E, 1.0)
+        sc = sc if sc in (2.0, 10.0) else 2.0
+        E2 = np.roll(E[0], 3, axis=1) + 2.0 * E[(1 % n)]
+        floor = 1.0 if c["dissipation"] == "romero" else 0.0
+    else:
+        # batch: base points, then scaled copy of point 0, a partner for point 0, their sum, and an empty sea
+        E2 = np.roll(E[0], 3, axis=1)[::-1][::-1] * 0.5 + E[(1 % n)] * 0.25
+        floor = 1e-9 * E.max() if c["dissipation"] == "romero" else 0.0
     extra = np.stack([E[0] * sc, E2, E[0] + E2, np.zeros_like(E[0]) + floor])
     Eb = np.concatenate([E, extra])
     nb = Eb.shape[0]
     rep = lambda x: list(x) + [x[0]] * 4
     depth = rep(c["depth"])
     spec = W.build(c, Eb, depth)
+    if ints:
+        spec.dataset["variance_density"] = spec.dataset["variance_density"].astype("int64")
     if c["input_type"] == "u10":
         speed_v = rep(c["u10"])
+        if ints:
+            speed_v = [float(max(1, round(u))) for u in speed_v]
     else:
         speed_v = [u / 28.0 for u in rep(c["u10"])]
     speed = W.da(speed_v, spec)
+    if ints and c["input_type"] == "u10":
+        speed = speed.astype("int64")
     wdir_v = rep(c["wdir"])
     wdir = W.da(wdir_v, spec)
     z0 = W.da(np.exp(rep(c["log_z0"])), spec)
@@ -110,6 +129,8 @@ def run(c):
     classes = ["dissipation_" + c["dissipation"], "input_" + it, f"nd{c['nd']}"]
     if c.get("reuse_terms"):
         classes.append("term_objects_used_before_on_another_grid_of_the_same_shape")
+    if ints:
+        classes.append("integer_stored_density_and_u10")
 
     R = np.asarray(gen.rate(spec, speed, wdir, roughness_length=z0, wind_speed_input_type=it).values)
     require(R.shape == Eb.shape and np.isfinite(R).all(), "wind_input_finite", f"shape={R.shape}")
@@ -161,7 +182,15 @@ def run(c):
     # batch independence
     j = c["pick"]
     s1 = W.build(c, Eb[j:j + 1], [depth[j]])
-    R1 = np.asarray(gen.rate(s1, W.da([speed_v[j]], s1), W.da([wdir_v[j]], s1), roughness_length=W.da([float(z0.values[j])], s1),
+    sp1 = W.da([speed_v[j]], s1)
+    if ints:
+        # same storage type as the batch: the property compares a point with itself alone, not int64 with float64
+        # storage (on the pinned tree ST6/Romero truncate the directionally integrated spectrum of integer input,
+        # see DESIGN section 5, observations)
+        s1.dataset["variance_density"] = s1.dataset["variance_density"].astype("int64")
+        if it == "u10":
+            sp1 = sp1.astype("int64")
+    R1 = np.asarray(gen.rate(s1, sp1, W.da([wdir_v[j]], s1), roughness_length=W.da([float(z0.values[j])], s1),
                              wind_speed_input_type=it).values)
     require(np.abs(R1[0] - R[j]).max() <= 1e-13 * max(float(np.abs(R[j]).max()), 1e-300),
             "batch_point_equals_single_evaluation_wind_input",
